@@ -80,6 +80,22 @@ Theorem weights_fl_pow2_exact : forall g,
 Proof. intros g S A P. exact (weights_fl_pow2_exact_l g (conj S (conj A P))). Qed.
 Print Assumptions weights_fl_pow2_exact.
 
+(** what this means for the groups the byte tokenizer emits ([cluster_group]: one group per character — [Full #bytes],
+    or one nested [Full] per code point — and [Full 1] per special, prefix and suffix token): for every non-empty
+    character of at most 2^22 code points there is one weight per byte, every weight is a finite float in (0,1], and
+    the weights of the character sum to 1 within 4 * 2^-24 (depth <= 2); a [Full 1] group has the single weight 1.0 *)
+Theorem cluster_group_fl : forall cpg c, c <> [] -> (Z.of_nat (length c) <= 2 ^ 22)%Z ->
+  let ws := weights_fl true (cluster_group cpg c) in
+  length ws = length (utf8s c) /\
+  Forall (fun w => is_finite w = true /\ (0 < B2R w <= 1)%R) ws /\
+  (Rabs (sumR (map B2R ws) - 1) <= 4 * u24)%R.
+Proof. exact cluster_group_fl_l. Qed.
+Print Assumptions cluster_group_fl.
+
+Theorem full1_weight_fl : weights_fl true (Full 1) = [f32_one].
+Proof. exact full1_fl. Qed.
+Print Assumptions full1_weight_fl.
+
 (** ** non-vacuity *)
 Definition ex_g : tg := Nested [Full 3; Nested [Full 1; Full 2]; Full 5].
 Example ex_g_ok :
